@@ -114,6 +114,15 @@ func Load(dir string, goarch string) *Prog {
 		}
 	}
 	p.allFns = ssautil.AllFunctions(prog)
+	// an instantiation of a generic function of the module belongs, for every rule, to the package that declares the
+	// generic function (go/ssa leaves Pkg nil on instances; nothing is built after this point)
+	for fn := range p.allFns {
+		if fn.Pkg == nil && fn.Parent() == nil {
+			if o := fn.Origin(); o != nil && o.Pkg != nil && strings.HasPrefix(o.Pkg.Pkg.Path(), modPath) {
+				fn.Pkg = o.Pkg
+			}
+		}
+	}
 	for fn := range p.allFns {
 		if p.InModule(fn) {
 			p.modFns = append(p.modFns, fn)
